@@ -2,6 +2,7 @@
 // the secret export, no secret key material in any encoding (also after other exports in the same process).
 #include "hmain.hpp"
 #include "iolib.hpp"
+#include <thread>
 using namespace vf;
 
 static std::string bytes_of(const void *p, size_t n) { return std::string((const char *)p, n); }
@@ -71,6 +72,22 @@ static std::string run_case(const J &c, std::string &sig) {
     std::string secret = io_export_bytes(ko, file);
     std::string why;
     char buf[400];
+    // 0. the export is a function of the (const) key set only: several threads exporting the cloud key and the secret key at the same time,
+    //    on either transport, each obtain exactly the bytes of the single-threaded export (a server hands the cloud key to many clients)
+    if (int T = (int)c["threads"].i()) {
+        std::vector<int> bad(T, 0);
+        std::vector<std::thread> th;
+        const int rounds = n >= 128 ? 2 : 12;
+        for (int t = 0; t < T; t++) th.emplace_back([&, t]() {
+            for (int q = 0; q < rounds && !bad[t]; q++) {
+                bool f = ((t + q) & 1) != 0;
+                if (t % 3 == 2) { if (io_export_bytes(ko, f) != secret) bad[t] = 2; }
+                else if (io_export_bytes(&cl, f) != cloud) bad[t] = 1;
+            }
+        });
+        for (auto &x : th) x.join();
+        for (int t = 0; t < T && why.empty(); t++) if (bad[t]) { snprintf(buf, sizeof buf, "%s key set exported by thread %d of %d while other threads export too differs from the single-threaded export", bad[t] == 2 ? "secret" : "cloud", t, T); why = buf; sig = "c17/concurrent-export"; }
+    }
     // 1. size determined by the parameters; text section lengths obtained through the API itself
     IoObj gbp; gbp.type = T_GBPARAMS; gbp.p = (void *)sk->params;
     IoObj lwp; lwp.type = T_LWEPARAMS; lwp.p = (void *)sk->params->in_out_params;
@@ -140,11 +157,11 @@ int main(int argc, char **argv) {
     Harness H(A, "c17");
     H.run_case = run_case;
     H.nontrivial = [](const J &c) { return c["n"].i() >= 16; };
-    H.classify = [](const J &c) { return std::string(c["file"].i() ? "FILE" : "stream") + "_hist" + std::to_string(c["history"].size()) + (c["n"].i() >= 128 ? "_big" : ""); };
+    H.classify = [](const J &c) { return std::string(c["file"].i() ? "FILE" : "stream") + "_hist" + std::to_string(c["history"].size()) + (c["n"].i() >= 128 ? "_big" : "") + (c["threads"].i() ? "_concurrentExports" : ""); };
     if (H.mode == "replay") return H.replay(A.s("replay"));
     auto mk = [&](int n, int k, int l, int Bgbit, int t, int bb, double amin, double amin2, uint64_t seed, int file, const J &hist, int import) {
         J c = J::object();
-        c.set("n", n).set("kk", k).set("l", l).set("Bgbit", Bgbit).set("t", t).set("bb", bb).set("amin", amin).set("amin2", amin2).set("seed", seed).set("file", file).set("history", hist).set("import", import);
+        c.set("n", n).set("kk", k).set("l", l).set("Bgbit", Bgbit).set("t", t).set("bb", bb).set("amin", amin).set("amin2", amin2).set("seed", seed).set("file", file).set("history", hist).set("import", import).set("threads", (int)(seed % 3 == 0 ? 2 + seed % 5 : 0));
         return c;
     };
     if (H.mode == "defaults") {
